@@ -248,6 +248,12 @@ pub fn profile_for(prop: &str, rng: &mut Rng, cfg: BuildCfg) -> Profile {
             w[OPK_CREATE_WITHIN] += 20;
             w[OPK_FILL] += 8;
             w[OPK_CREATE] += 10;
+            // "each can be refilled to capacity": refills after clone / clone_from too
+            if rng.chance(1, 3) {
+                f.fork = true;
+                w[OPK_CLONE] += 4;
+                w[OPK_SWITCH] += 6;
+            }
         }
         "C13" => {
             w[OPK_CLONE] += 12;
@@ -280,7 +286,7 @@ pub fn profile_for(prop: &str, rng: &mut Rng, cfg: BuildCfg) -> Profile {
         w[OPK_SPAWN] = 2;
     }
     if f.fork {
-        w[OPK_CLONE_FROM] = if matches!(prop, "C13" | "C04") { 4 } else { 1 };
+        w[OPK_CLONE_FROM] = if matches!(prop, "C13" | "C04") { 4 } else if prop == "C12" { 5 } else { 1 };
     }
     if !f.fork {
         w[OPK_CLONE] = 0;
